@@ -560,6 +560,17 @@ func runC14(ctx *core.Ctx) {
 		for _, t := range acc[:k] {
 			jobs = append(jobs, ladderJob{familyByName("css-shorthand-repeat"), prop + "\x1f" + t, tokLadder(ctx.N(26, 40)), prop + " x " + t})
 		}
+		if k > 0 {
+			// the same repetition far beyond the one-token-at-a-time ladder, two tokens at a time:
+			// bookkeeping that is sound for short values only (a fixed-width table, a counter that
+			// wraps, a cache with a size cap) shows where the rungs cross its width (56..88 quick,
+			// ..136 thorough; the ratio test scales its bound with the step)
+			var long []int
+			for n := 56; n <= ctx.N(88, 136); n += 2 {
+				long = append(long, n)
+			}
+			jobs = append(jobs, ladderJob{familyByName("css-shorthand-repeat"), prop + "\x1f" + acc[0], long, prop + " x " + acc[0] + " (long)"})
+		}
 		if len(acc) >= 2 {
 			mix := acc
 			if len(mix) > 4 {
